@@ -34,6 +34,10 @@ CHECKS = {
          "for every statement boundary of every block of every enumerated program the line print(v) is inserted as an unsaved change and completion is requested behind the v; every visible local/parameter/loop variable and every workspace global with the prefix must be offered, no out-of-scope local may be",
          "trusted: internal/luaref VisibleAt; other labels ignored; bounds: <=2 nodes + first 60000 programs of 3 nodes (quick), <=3 nodes (thorough)",
          "DESIGN.md §4 C14"),
+ 'C08': ("explicit-state exploration of client/file event histories up to a depth bound (reference client model decides enabledness), each replayed on a fresh real server; differential invariant against a freshly started server on the same disk after every event",
+         "every history of open/change/save/close/create/delete/external-change events over two files and six content variants that a conformant client can produce, up to depth 3 (quick) / 4-5 (thorough) from three initial workspaces, is replayed through the real jrpc2 server; after every event the folded client view (last publishDiagnostics per file) and definition answers must equal those of a fresh server on the same disk, with the unsaved-buffer rule of the property; no state merging, because equal client-visible states may hide different server states",
+         "trusted: the client conventions of DESIGN.md Appendix D (how VS Code orders save / watched events); the oracle is the implementation itself from the initial state; files touched-but-equal-to-disk are not judged",
+         "DESIGN.md §4 C08"),
 }
 NOT_YET = "check not built yet in this round (planned: see DESIGN.md section 4); no claim is made"
 
